@@ -207,7 +207,7 @@ def kani_inject(scratch, crate):
         parent = os.path.join(cdir, ch['parent'])
         rel = os.path.relpath(os.path.join(dst, ch['file']), os.path.dirname(parent))
         with open(parent, 'a') as f:
-            f.write(f'\n{guard}\n#[path = "{rel}"]\nmod {ch["name"]};\n')
+            f.write(f'\n{guard}\n#[path = "{rel}"]\npub(crate) mod {ch["name"]};\n')
     for ap in cfg.get('append', []):
         # append-only additions to other files of the scratch copy (e.g. Cargo.toml tables)
         with open(os.path.join(cdir, ap['file']), 'a') as f:
